@@ -1086,3 +1086,148 @@ def c15_save(v):
     v.oblige(st, z3.BoolVal(bool(in_with)), "C15:lemma:temporary-file-closed-before-the-replace",
              "the function is `with open(tmp, 'w') ...` followed by the replace: %s" % [type(b).__name__ for b in body])
     v.assumptions_used.add('A-RENAME')
+
+
+# ---------------------------------------------------------------------------------------------------- C19 (peer book)
+
+@LM.lemma("C19.book-writers", props=["C19"])
+def c19_writers(v):
+    """structure of the code that writes the two maps of the peer book (scan of the real source; the behaviour over event
+    sequences is exercised by the bounded part): only the known five functions write them; a key is entered into
+    `disconnected_peers` by the message handlers only under `key not in nm.connected_peers`; the connect handler removes the
+    key from `disconnected_peers` right after entering it into `connected_peers`; the disconnect handler removes it from
+    `connected_peers` before entering it into `disconnected_peers`."""
+    import ast, inspect, textwrap
+    import skepticoin.networking.local_peer  # noqa
+    import skepticoin.networking.manager as m
+    import skepticoin.networking.remote_peer as rp
+    st = State()
+    writers = set()
+    for name in ('connected_peers', 'disconnected_peers'):
+        writers |= {w for w in writers_of(name)}
+    allowed = {'manager.NetworkManager.__init__', 'manager.NetworkManager.handle_peer_connected',
+               'manager.NetworkManager.handle_peer_disconnected',
+               'remote_peer.ConnectedRemotePeer.handle_hello_message_received',
+               'remote_peer.ConnectedRemotePeer.handle_peers_message_received',
+               'threading.NetworkingThread.__init__', 'local_peer.LocalPeer.__init__'}
+    v.oblige(st, z3.BoolVal(writers <= allowed), "C19:lemma:book-writers-are-the-known-ones", "writers found: %s" % sorted(writers))
+
+    def fn_ast(f):
+        return ast.parse(textwrap.dedent(inspect.getsource(f))).body[0]
+
+    def is_sub(n, attr):
+        return isinstance(n, ast.Subscript) and isinstance(n.value, ast.Attribute) and n.value.attr == attr
+
+    # message handlers: every insertion into disconnected_peers sits in `elif key not in nm.connected_peers` of an
+    # `if key in nm.disconnected_peers` (same key expression)
+    for f in (rp.ConnectedRemotePeer.handle_hello_message_received, rp.ConnectedRemotePeer.handle_peers_message_received):
+        node = fn_ast(f)
+        bad = []
+        guarded = set()
+        for n in ast.walk(node):
+            if isinstance(n, ast.If) and isinstance(n.test, ast.Compare) and isinstance(n.test.ops[0], ast.In) \
+                    and isinstance(n.test.comparators[0], ast.Attribute) and n.test.comparators[0].attr == 'disconnected_peers' \
+                    and len(n.orelse) == 1 and isinstance(n.orelse[0], ast.If):
+                inner = n.orelse[0]
+                t = inner.test
+                if isinstance(t, ast.Compare) and isinstance(t.ops[0], ast.NotIn) and isinstance(t.comparators[0], ast.Attribute) \
+                        and t.comparators[0].attr == 'connected_peers' and ast.dump(t.left) == ast.dump(n.test.left):
+                    for x in ast.walk(inner):
+                        if isinstance(x, ast.Assign) and is_sub(x.targets[0], 'disconnected_peers') \
+                                and ast.dump(x.targets[0].slice) == ast.dump(t.left):
+                            guarded.add(x.lineno)
+        for x in ast.walk(node):
+            if isinstance(x, ast.Assign) and is_sub(x.targets[0], 'disconnected_peers') and x.lineno not in guarded:
+                bad.append(x.lineno)
+        v.oblige(st, z3.BoolVal(not bad), "C19:lemma:announced-peers-entered-only-when-not-connected:" + f.__name__,
+                 "unguarded insertions into disconnected_peers at relative lines %s" % bad)
+    # connect handler: connected[key] = peer is followed (same block) by `if key in disconnected: del disconnected[key]`
+    node = fn_ast(m.NetworkManager.handle_peer_connected)
+    ok = False
+    for k, s_ in enumerate(node.body):
+        if isinstance(s_, ast.Assign) and is_sub(s_.targets[0], 'connected_peers') and k + 1 < len(node.body):
+            nx = node.body[k + 1]
+            key = ast.dump(s_.targets[0].slice)
+            if isinstance(nx, ast.If) and isinstance(nx.test, ast.Compare) and isinstance(nx.test.ops[0], ast.In) \
+                    and ast.dump(nx.test.left) == key and isinstance(nx.test.comparators[0], ast.Attribute) \
+                    and nx.test.comparators[0].attr == 'disconnected_peers' and len(nx.body) == 1 and isinstance(nx.body[0], ast.Delete) \
+                    and is_sub(nx.body[0].targets[0], 'disconnected_peers') and ast.dump(nx.body[0].targets[0].slice) == key:
+                ok = True
+    v.oblige(st, z3.BoolVal(ok), "C19:lemma:connect-removes-the-key-from-the-waiting-map",
+             "handle_peer_connected: `connected_peers[key] = ...` directly followed by `if key in disconnected_peers: del ...`")
+    # disconnect handler: `del connected[key]` comes before `disconnected[key] = ...`, same key
+    node = fn_ast(m.NetworkManager.handle_peer_disconnected)
+    del_line = [x.lineno for x in ast.walk(node) if isinstance(x, ast.Delete) and is_sub(x.targets[0], 'connected_peers')]
+    ins_line = [x.lineno for x in ast.walk(node) if isinstance(x, ast.Assign) and is_sub(x.targets[0], 'disconnected_peers')]
+    v.oblige(st, z3.BoolVal(len(del_line) == 1 and all(l > del_line[0] for l in ins_line)),
+             "C19:lemma:disconnect-removes-before-it-enters", "del at %s, insertions at %s" % (del_line, ins_line))
+    # the retry gate in step(): an outgoing connection is started only under the three conditions, and the attempt time is
+    # recorded first (so that the back-off of is_time_to_connect - verified by contract - applies to the next attempt)
+    node = fn_ast(m.NetworkManager.step)
+    calls = [x for x in ast.walk(node) if isinstance(x, ast.Call) and isinstance(x.func, ast.Attribute)
+             and x.func.attr == 'start_outgoing_connection']
+    gate_ok = len(calls) == 1
+    for n in ast.walk(node):
+        if isinstance(n, ast.If) and any(c in list(ast.walk(n)) for c in calls):
+            test = ast.unparse(n.test)
+            arg = ast.unparse(calls[0].args[0]) if calls and calls[0].args else '?'
+            gate_ok = gate_ok and ("%s.is_time_to_connect(current_time)" % arg) in test and ("%s.direction == OUTGOING" % arg) in test \
+                and ("(%s.host, %s.port) not in self.my_addresses" % (arg, arg)) in test and isinstance(n.test, ast.BoolOp) \
+                and isinstance(n.test.op, ast.And)
+            first = n.body[0]
+            gate_ok = gate_ok and isinstance(first, ast.Assign) and ast.unparse(first.targets[0]) == "%s.last_connection_attempt" % arg \
+                and ast.unparse(first.value) == 'current_time'
+            break
+    else:
+        gate_ok = False
+    v.oblige(st, z3.BoolVal(bool(gate_ok)), "C19:lemma:retry-gate-in-step",
+             "start_outgoing_connection only under `direction == OUTGOING and address not own and is_time_to_connect(now)`, "
+             "after recording the attempt time")
+
+
+# ---------------------------------------------------------------------------------------------------- C08 (block store)
+
+@LM.lemma("C08.columns", props=["C08"])
+def c08_columns(v):
+    """structure of the store's row construction (scan of the real source; the round trip itself is exercised by the bounded
+    part with a real sqlite file): every field of every consensus class below Block is written to a column and read back
+    into the same constructor argument; every table's INSERT supplies as many values as the table has columns; all four
+    INSERTs of a flush sit between one BEGIN and one COMMIT."""
+    import ast, inspect, textwrap, re
+    import skepticoin.blockstore as bs
+    st = State()
+    wsrc = textwrap.dedent(inspect.getsource(bs.BlockStore.write_blocks_to_disk))
+    rsrc = "\n".join(textwrap.dedent(inspect.getsource(f)) for f in
+                     (bs.BlockStore.read_blocks_from_disk, bs.BlockStore.load_inputs, bs.BlockStore.load_outputs,
+                      bs.BlockStore.load_transaction_builders))
+    init = textwrap.dedent(inspect.getsource(bs.BlockStore.__init__))
+    # 1. fields written
+    need_w = ['header.version', 'summary.height', 'summary.previous_block_hash', 'summary.merkle_root_hash', 'summary.timestamp',
+              'summary.target', 'summary.nonce', 'pow_evidence.summary_hash', 'pow_evidence.chain_sample', 'pow_evidence.block_hash',
+              'output_reference.hash', 'output_reference.index', 'input.signature', 'output.value', 'output.public_key']
+    missing_w = [f for f in need_w if f not in wsrc]
+    v.oblige(st, z3.BoolVal(not missing_w), "C08:lemma:every-field-is-written", "fields not written by write_blocks_to_disk: %s" % missing_w)
+    # 2. fields read back into the constructors
+    need_r = ['height=height', 'previous_block_hash=zeroify_nulls(previous_block_hash)', 'merkle_root_hash=merkle_root_hash',
+              'timestamp=timestamp', 'target=target', 'nonce=nonce', 'summary_hash=pow_summary_hash', 'chain_sample=pow_chain_sample',
+              'block_hash=pow_block_hash', 'OutputReference(zeroify_nulls(output_reference_hash), output_reference_index)',
+              'Output(value, PublicKey.deserialize(public_key))', 'Signature.deserialize(signature)']
+    flat = re.sub(r'\s+', ' ', rsrc)
+    missing_r = [f for f in need_r if re.sub(r'\s+', ' ', f) not in flat]
+    v.oblige(st, z3.BoolVal(not missing_r), "C08:lemma:every-column-is-read-back-into-its-field", "not found in the read path: %s" % missing_r)
+    # 3. arity of the INSERTs against the CREATE TABLEs
+    tables = {}
+    for mt in re.finditer(r"CREATE TABLE (\w+) \((.*?)\)'''", init, re.S):
+        cols = [c.strip() for c in re.split(r",\s*\n", mt.group(2)) if c.strip()
+                and not c.strip().upper().startswith(('PRIMARY KEY', 'FOREIGN KEY', 'REFERENCES'))]
+        tables[mt.group(1)] = len(cols)
+    bad = []
+    for mt in re.finditer(r'insert or ignore into (\w+) values \(([?,]+)\)', wsrc):
+        if tables.get(mt.group(1)) != mt.group(2).count('?'):
+            bad.append((mt.group(1), tables.get(mt.group(1)), mt.group(2).count('?')))
+    v.oblige(st, z3.BoolVal(len(tables) == 4 and not bad), "C08:lemma:insert-arity-matches-schema", "tables %s, mismatches %s" % (tables, bad))
+    # 4. one transaction per flush
+    order = [m_.group(0) for m_ in re.finditer(r"BEGIN TRANSACTION|COMMIT|insert or ignore into \w+", wsrc)]
+    ok = len(order) == 6 and order[0] == 'BEGIN TRANSACTION' and order[-1] == 'COMMIT'
+    v.oblige(st, z3.BoolVal(ok), "C08:lemma:one-transaction-per-flush", "statement order: %s" % order)
+    v.assumptions_used.add('A-SQL')
